@@ -38,7 +38,7 @@ Groups(cn, anc) ==
     [] cn = "iw" /\ anc = "none" -> {I(Low)}
     [] cn = "iw" /\ anc = "max" -> {I(HighI8)}
     [] cn = "iw" /\ anc = "min" -> {I(MinI8)}
-    [] anc = "p53" -> {I(249..256)}
+    [] anc = "p53" -> {I(IF Deep THEN 249..256 ELSE 250..255)}
     [] cn = "flt" -> {I(Low) \cup Fracs}
     [] cn = "rat" -> {I({-1, 0, 1, 2, 3}) \cup Fracs \cup Thirds}
 
@@ -76,13 +76,17 @@ St(k)  == Status(k.a, k.s, k.b, k.incl)
 
 FormName(k) == (IF k.incl THEN "inclusive" ELSE "exclusive") \o (IF k.step THEN "-step" ELSE "")
 
-(* the kernel would have to form a term that the kind cannot hold (one step past the last element) *)
+(* boundary conditions of the kind, from the model side:                                              *)
+(*  "span-beyond-kind-max"  end - start itself exceeds the kind's maximum (-128..127 in i8)            *)
+(*  "at-kind-max/min"       the term one step past the last element is not representable: a kernel     *)
+(*                          that forms it overflows                                                    *)
 Edge(k) ==
-  LET nx == NextAfter(k.a, k.s, k.b, k.incl) IN
-  IF St(k) \notin {"asc", "desc"} \/ Cls(k).c # "int" THEN "interior"
-  ELSE IF k.anc = "p53" THEN "beyond-2^53"
-  ELSE IF k.anc \in {"max", "none"} /\ nx.n > Cls(k).hi /\ k.cn \in {"u8", "i8"} \cup (IF k.anc = "max" THEN {"uw", "iw"} ELSE {}) THEN "at-kind-max"
-  ELSE IF nx.n < Cls(k).lo /\ (k.cn \in {"u8", "i8"} \/ k.anc = "min") THEN "at-kind-min"
+  LET nx == NextAfter(k.a, k.s, k.b, k.incl)
+      bounded == k.cn \in {"u8", "i8"} \/ k.anc \in {"max", "min"} IN
+  IF St(k) \notin {"asc", "desc"} \/ Cls(k).c # "int" \/ ~bounded THEN "interior"
+  ELSE IF Abs(k.b.n - k.a.n) > Cls(k).hi THEN "span-beyond-kind-max"
+  ELSE IF nx.n > Cls(k).hi THEN "at-kind-max"
+  ELSE IF nx.n < Cls(k).lo THEN "at-kind-min"
   ELSE "interior"
 
 (* "exact":  a well-formed ascending range: must be accepted and equal the progression, kind of the operands *)
@@ -96,6 +100,7 @@ Must(k) == St(k) = "asc" /\ k.cn # "rat"
 Sig(k) ==
   IF Edge(k) # "interior" THEN "C15/" \o FormName(k) \o "/" \o Edge(k)
   ELSE "C15/" \o FormName(k) \o "/" \o k.cn \o "/" \o St(k)
+       \o (IF St(k) \in {"asc", "desc"} /\ ~OnGrid(k.a, k.s, k.b) THEN "/end-off-grid" ELSE "")
 
 QJ(v) == [n |-> v.n, d |-> v.d]
 CaseJson(k) ==
